@@ -31,7 +31,8 @@ META = {
     "design_ref": "DESIGN.md §3.9, §5 C18, Appendix A/D",
     "level_text": "TLC explores every reachable state of Driver.tla under the stated bounds; every real run is "
                   "accepted or rejected by TLC as a behaviour of that module",
-    "level_note": "bounded: <= 2 files, <= 2 faults per run in the model; the corpus sample and the fault matrix are finite",
+    "level_note": "bounded: <= 2 files, <= 2 faults per run in the model; the corpus sample and the fault matrix are finite; the common "
+                  "header of a split C output (-Csmax) is the tenth output kind \"h\" of Driver.tla and of the fault matrix",
 }
 
 MODEL_ACTIONS = ["StartFile", "EndFile", "Phase", "PhEnd", "Msg", "IoFault", "OpenOut", "WriteOut", "CloseOut",
